@@ -163,4 +163,223 @@ theorem mem_removeExcludes (f : Sup) (es : List Entry) : ∀ (i : Nat) (acc r : 
       · rintro ⟨⟨a, b⟩, c⟩; exact ⟨a, b, c⟩
       · rintro ⟨a, b, c⟩; exact ⟨⟨a, b⟩, c⟩
 
+/-! ### resolveFeatures -/
+
+theorem versions1_ne_nil (fs : Features) : versions1 fs ≠ [] := by
+  unfold versions1
+  split
+  · split <;> simp
+  · rename_i h; intro h2; rw [h2] at h; simp at h
+
+theorem versions2_eq (fs : Features) : versions2 fs = versions1 fs := by
+  unfold versions2
+  have := versions1_ne_nil fs
+  cases h : versions1 fs with
+  | nil => exact absurd h this
+  | cons a t => simp
+
+theorem versions1_eq (fs : Features) : versions1 fs = (defaults fs).versions := by
+  unfold versions1 defaults flagTls flagH2c
+  cases fs.versions <;> simp
+
+theorem includesHTTP2_eq (fs : Features) : includesHTTP2 fs = decide (Ver.v2 ∈ (defaults fs).versions) := by
+  unfold includesHTTP2
+  have := versions1_ne_nil fs
+  rw [← versions1_eq]
+  cases h : versions1 fs with
+  | nil => exact absurd h this
+  | cons a t => simp
+
+theorem includesHTTP3_eq (fs : Features) : includesHTTP3 fs = decide (Ver.v3 ∈ (defaults fs).versions) := by
+  unfold includesHTTP3
+  rw [← versions1_eq]; simp
+
+theorem resolved_eq_defaults (fs : Features) : resolved fs = defaults fs := by
+  have h1 := versions1_eq fs
+  have h2 := includesHTTP2_eq fs
+  have h3 := includesHTTP3_eq fs
+  unfold resolved
+  rw [versions2_eq, h1]
+  unfold protocolsR codecsR compsR stsR onlyHTTP1
+  rw [h2, h3]
+  unfold defaults flagTls flagH2c flagCerts flagTrailers flagHalfH1 flagGet flagLimit
+  simp only [Sup.mk.injEq, true_and, and_true]
+  refine ⟨?_, ?_, ?_, ?_⟩
+  · cases fs.protocols <;> simp
+  · cases fs.codecs <;> simp
+  · cases fs.comps <;> simp
+  · cases fs.sts with
+    | cons a t => simp
+    | nil =>
+      simp only [↓reduceIte, List.isEmpty_nil]
+      split <;> split <;> simp_all
+
+theorem defaulted_defaults (fs : Features) : Defaulted fs (defaults fs) := by
+  unfold Defaulted defaults
+  simp only [true_and]
+  refine ⟨?_, ?_, ?_, ?_, ?_, ?_, ?_, ?_, ?_, ?_⟩ <;> intro h <;> simp [h]
+
+theorem ite_err {ε α} {c : Prop} [Decidable c] {e : ε} {r : Except ε α} :
+    (∃ x, (if c then Except.error e else r) = Except.error x) ↔ (c ∨ ∃ x, r = Except.error x) := by
+  by_cases h : c <;> simp [h]
+
+theorem ok_ne_err {ε α} {a : α} : (∃ x : ε, (Except.ok a : Except ε α) = Except.error x) ↔ False := by
+  simp
+
+theorem resolveFeatures_ok (fs : Features) (f : Sup) (h : resolveFeatures fs = .ok f) : f = defaults fs := by
+  rw [← resolved_eq_defaults]
+  unfold resolveFeatures at h
+  repeat' split at h
+  all_goals first | (injection h with h; exact h.symm) | (injection h)
+
+theorem resolveFeatures_error_iff (fs : Features) :
+    (∃ x, resolveFeatures fs = .error x) ↔ Contradictory fs (defaults fs) := by
+  have h1 := versions1_eq fs
+  have h2 := includesHTTP2_eq fs
+  have h3 := includesHTTP3_eq fs
+  have hd : (defaults fs).h2c = flagH2c fs ∧ (defaults fs).tls = flagTls fs ∧ (defaults fs).certs = flagCerts fs ∧
+      (defaults fs).trailers = flagTrailers fs ∧ (defaults fs).halfH1 = flagHalfH1 fs := ⟨rfl, rfl, rfl, rfl, rfl⟩
+  obtain ⟨d1, d2, d3, d4, d5⟩ := hd
+  unfold Contradictory
+  rw [d1, d2, d3, d4, d5, ← h1]
+  unfold resolveFeatures onlyHTTP1
+  rw [h2, h3, ← h1]
+  simp only [ite_err, ok_ne_err, or_false]
+  simp only [List.contains_eq_mem, decide_eq_true_eq, decide_eq_false_iff_not, Bool.or_eq_false_iff,
+    Bool.and_eq_true, Bool.not_eq_true', List.isEmpty_eq_false_iff, ne_eq]
+  have key : (¬fs.versions = [] ∧ fs.h2c = some true ∧ ¬Ver.v2 ∈ versions1 fs) ↔
+      (¬fs.versions = [] ∧ fs.h2c = some true ∧ ¬Ver.v2 ∈ fs.versions) := by
+    constructor <;> rintro ⟨a, b, c⟩ <;> refine ⟨a, b, ?_⟩
+    · unfold versions1 at c; cases hv : fs.versions with
+      | nil => exact absurd hv a
+      | cons x t => rw [hv] at c; simpa using c
+    · unfold versions1; cases hv : fs.versions with
+      | nil => exact absurd hv a
+      | cons x t => rw [hv] at c; simpa using c
+  rw [key]
+  simp only [and_assoc]
+theorem only_iff {α} [DecidableEq α] (l : List α) (x : α) :
+    only l x = true ↔ (l ≠ [] ∧ ∀ y ∈ l, y = x) := by
+  unfold only
+  cases l <;> simp
+
+theorem or_and_absorb {a b : Prop} : (a ∨ a ∧ b) ↔ a :=
+  ⟨fun h => h.elim id And.left, Or.inl⟩
+
+theorem usingTLS_iff (f : Sup) (e : Entry) : usingTLS f e = true ↔ EntryTls f e := by
+  unfold usingTLS EntryTls
+  simp
+
+theorem resolveCase_error_iff (f : Sup) (e : Entry) :
+    (∃ x, resolveCase f e = .error x) ↔ EntryContradictory f e := by
+  unfold resolveCase EntryContradictory
+  simp only [ite_err, ok_ne_err, or_false]
+  have hv : (implied f e).versions = entryVersions f e := rfl
+  rw [hv]
+  simp only [← usingTLS_iff, only_iff, List.contains_eq_mem, decide_eq_false_iff_not, Bool.not_eq_true]
+  rcases e.tls with _ | _ | _ <;> simp [optList, or_and_absorb]
+
+theorem axis_cand {α} [DecidableEq α] (zero : α) (l : List α) (g x : α) (h : AxisOk zero l g x) :
+    x ∈ l ∨ g = x := by
+  unfold AxisOk at h; split at h
+  · exact Or.inl h
+  · exact Or.inr h.symm
+
+theorem mem_allVer (v : Ver) : v ∈ allVer := by cases v <;> simp [allVer]
+theorem mem_allProto (v : Proto) : v ∈ allProto := by cases v <;> simp [allProto]
+theorem mem_allCodec (v : Codec) : v ∈ allCodec := by cases v <;> simp [allCodec]
+theorem mem_allComp (v : Comp) : v ∈ allComp := by cases v <;> simp [allComp]
+theorem mem_allST (v : ST) : v ∈ allST := by cases v <;> simp [allST]
+theorem mem_bools (b : Bool) : b ∈ [false, true] := by cases b <;> simp
+
+theorem mem_candidates (f : Sup) (inc : List Entry) (k : Case) :
+    k ∈ candidates f inc ↔
+      (k.v ∈ f.versions ∨ ∃ e ∈ inc, e.v = k.v) ∧ (k.p ∈ f.protocols ∨ ∃ e ∈ inc, e.p = k.p) ∧
+      (k.c ∈ f.codecs ∨ ∃ e ∈ inc, e.c = k.c) ∧ (k.z ∈ f.comps ∨ ∃ e ∈ inc, e.z = k.z) ∧
+      (k.s ∈ f.sts ∨ ∃ e ∈ inc, e.s = k.s) ∧ k.cvm = .unspec := by
+  obtain ⟨v, p, c, z, s, t, cc, g, l, m⟩ := k
+  simp only [candidates, List.mem_flatMap, List.mem_filter, List.mem_map, decide_eq_true_eq,
+    Case.mk.injEq, mem_allVer, mem_allProto, mem_allCodec, mem_allComp, mem_allST, true_and]
+  constructor
+  · rintro ⟨v', hv, p', hp, c', hc, z', hz, s', hs, t', _, cc', _, g', _, l', _, rfl, rfl, rfl, rfl, rfl, rfl, rfl, rfl, rfl, rfl⟩
+    exact ⟨hv, hp, hc, hz, hs, rfl⟩
+  · rintro ⟨hv, hp, hc, hz, hs, rfl⟩
+    exact ⟨v, hv, p, hp, c, hc, z, hz, s, hs, t, mem_bools t, cc, mem_bools cc, g, mem_bools g, l, mem_bools l,
+      rfl, rfl, rfl, rfl, rfl, rfl, rfl, rfl, rfl, rfl⟩
+
+theorem specified_mem_candidates (f : Sup) (inc exc : List Entry) (k : Case)
+    (h : Specified f inc exc k) : k ∈ candidates f inc := by
+  rw [mem_candidates]
+  rcases h.1 with h1 | ⟨e, he, h2⟩
+  · exact ⟨Or.inl h1.1, Or.inl h1.2.1, Or.inl h1.2.2.1, Or.inl h1.2.2.2.1, Or.inl h1.2.2.2.2.1, h1.2.2.2.2.2.2.2.2.1⟩
+  · obtain ⟨a1, a2, a3, a4, a5, _, _, _, a9, _⟩ := h2
+    refine ⟨?_, ?_, ?_, ?_, ?_, a9⟩
+    · exact (axis_cand _ _ _ _ a1).imp id fun h => ⟨e, he, h⟩
+    · exact (axis_cand _ _ _ _ a2).imp id fun h => ⟨e, he, h⟩
+    · exact (axis_cand _ _ _ _ a3).imp id fun h => ⟨e, he, h⟩
+    · exact (axis_cand _ _ _ _ a4).imp id fun h => ⟨e, he, h⟩
+    · exact (axis_cand _ _ _ _ a5).imp id fun h => ⟨e, he, h⟩
+
+theorem mem_specSet (f : Sup) (inc exc : List Entry) (k : Case) :
+    k ∈ specSet f inc exc ↔ Specified f inc exc k := by
+  unfold specSet
+  rw [List.mem_filter, decide_eq_true_eq]
+  exact ⟨fun h => h.2, fun h => ⟨specified_mem_candidates f inc exc k h, h⟩⟩
+
+/-! ### errors of the include / exclude loops -/
+
+theorem addIncludes_error_iff (f : Sup) (es : List Entry) : ∀ (i : Nat) (acc : List Case),
+    (∃ x, addIncludes f i es acc = .error x) ↔ ∃ e ∈ es, EntryContradictory f e := by
+  induction es with
+  | nil => intro i acc; simp [addIncludes]
+  | cons e es ih =>
+    intro i acc
+    unfold addIncludes
+    simp only [List.mem_cons, exists_eq_or_imp]
+    rw [← resolveCase_error_iff]
+    cases h : resolveCase f e with
+    | error x => simp
+    | ok cs => simp only [ih]; simp
+
+theorem removeExcludes_error_iff (f : Sup) (es : List Entry) : ∀ (i : Nat) (acc : List Case),
+    (∃ x, removeExcludes f i es acc = .error x) ↔ ∃ e ∈ es, EntryContradictory f e := by
+  induction es with
+  | nil => intro i acc; simp [removeExcludes]
+  | cons e es ih =>
+    intro i acc
+    unfold removeExcludes
+    simp only [List.mem_cons, exists_eq_or_imp]
+    rw [← resolveCase_error_iff]
+    cases h : resolveCase f e with
+    | error x => simp
+    | ok cs => simp only [ih]; simp
+
+
+/-- the three stages of `parseConfig` when nothing errs -/
+theorem parseConfig_stages (cfg : Config) :
+    (∃ x, parseConfig cfg = .error x) ∨
+    (∃ cs, parseConfig cfg = .ok cs ∧ resolveFeatures cfg.features = .ok (defaults cfg.features) ∧ cs ≠ [] ∧
+      ∀ k, k ∈ cs ↔ Specified (defaults cfg.features) cfg.includes cfg.excludes k) := by
+  unfold parseConfig
+  cases hf : resolveFeatures cfg.features with
+  | error x => exact Or.inl ⟨_, rfl⟩
+  | ok f =>
+    have hfd := resolveFeatures_ok _ _ hf
+    subst hfd
+    simp only
+    cases hinc : addIncludes (defaults cfg.features) 0 cfg.includes (computeCases (defaults cfg.features) [] [] []) with
+    | error x => exact Or.inl ⟨_, rfl⟩
+    | ok withInc =>
+      simp only
+      cases hexc : removeExcludes (defaults cfg.features) 0 cfg.excludes withInc with
+      | error x => exact Or.inl ⟨_, rfl⟩
+      | ok cs =>
+        simp only
+        cases cs with
+        | nil => exact Or.inl ⟨_, rfl⟩
+        | cons a t =>
+          refine Or.inr ⟨a :: t, rfl, by first | rfl | trivial, by simp, fun k => ?_⟩
+          rw [mem_removeExcludes _ _ _ _ _ hexc k, mem_addIncludes _ _ _ _ _ hinc k, mem_features]
+          rfl
+
 end ConfModel.Config
